@@ -153,6 +153,32 @@ def check(an, rep, tier):
             '' if not bad else 'the cache influences something besides the '
             'request wrapper / with_cache / callback options (lines %s)' % bad,
             line=fn.node.lineno, file=mod.path)
+    # --- the convergence value is the distance of the RETURNED tensor to the
+    # previous one relative to the previous one: accuracy(<result>, <copy from
+    # the head of the sweep>) in this order, at every place that stores it
+    if res_name and old_name:
+        for node in ast.walk(fn.node):
+            if not (isinstance(node, ast.Assign) and
+                    isinstance(node.value, ast.Call) and
+                    len(node.value.args) >= 2 and
+                    all(isinstance(a_, ast.Name)
+                        for a_ in node.value.args[:2])):
+                continue
+            sk = paths.subscript_key(node.targets[0])
+            if not (sk and sk[0] == 'info' and sk[1] == 'e'):
+                continue
+            a0, a1 = node.value.args[0].id, node.value.args[1].id
+            if {a0, a1} != {res_name, old_name}:
+                continue
+            good = (a0, a1) == (res_name, old_name)
+            rep.add('P-fresh-info', 'cross.cross', 'info["e"] = distance of '
+                    'the result to the previous tensor, relative to the '
+                    'previous one (line %d)' % node.lineno,
+                    'ok' if good else 'violation',
+                    '' if good else 'the two tensors are handed to the '
+                    'relative distance in the other order: the value is '
+                    'divided by the norm of the new tensor, not of the '
+                    'previous one', line=node.lineno, file=mod.path)
     # --- P-cache-value
     fe = prog.func('cross._func_eval')
     P._LEN_CTX[0] = fe.node
